@@ -73,7 +73,7 @@ BOUNDS = {"quick": {"max_lines": 3, "raw_max_lines": 2, "multi_max_elems": 3, "b
                     "truncate_offsets": "every 7th + first/last 16 of every entry"},
           "thorough": {"max_lines": 4, "raw_max_lines": 2, "multi_max_elems": 4, "batch": 50,
                        "truncate_offsets": "every byte offset"}}
-CAP_S = {"quick": 120, "thorough": 1500}
+CAP_S = {"quick": 300, "thorough": 2400}
 BATCH = 50
 MAX_CONFIRM_PER_UNIT = 8
 
